@@ -144,6 +144,8 @@ pub fn run(ctx: &Ctx) -> Outcome {
             }
         }
     });
+    let mut acc = acc;
+    crate::diff::run_witnesses(ctx, "C03", "F1", &mut acc);
     let mut out = Outcome::new(acc);
     out.distinct_nontrivial = out.acc.distinct;
     out.rule = format!("base patterns: all trees of <= {} nodes with every single injection site (before/after every node at any depth){}; 25 contexts x E({}) with every site; seeded random trees of 5-10 nodes with 1-3 random sites each. Each (base, variant) pair is run on all texts over {{a,b,c,é,\\n,-}} up to length 3 from every offset and captures_from_pos must be identical. Non-trivial = distinct pairs whose route differs (wrapped vs VM) or whose multiset of delegated sub-patterns differs, and that matched at least once.", all_sites_upto, if ctx.tier == Tier::Quick { "; a seeded quarter of the 4-node trees with one random site" } else { "" }, ctx.tier.pick(1, 2));
